@@ -11,3 +11,8 @@ func lemmaNamesMono(s []string, n, m int) {
 	for i := n; i < m; i++ {
 	}
 }
+
+func lemmaQidsLen(s []Qid, n int) {
+	for i := 0; i < n; i++ {
+	}
+}
